@@ -241,16 +241,22 @@ def work(task):
     Proj = _lib()
     proj = Proj()
     acc = common.Acc()
-    f, items = task
-    signs = set()
-    for idx, (name, poly, sz) in enumerate(items):
-        # every second polygon goes through one reused coordinate list; before two of every four polygons a request for a face that does
-        # not exist is made with the polygon's first vertex (a caller's slip that was caught and ignored)
-        s = check_poly(acc, proj, poly, f, name, sz, form=idx % 2, reject=(idx % 4) in (1, 2))
-        if s is not None:
-            signs.add(s)
-    if len(signs) > 1:
-        acc.violation(f'c14:f{f}:orientation', f'face {f}: some polygons keep their orientation and some are mirrored', {'face': f, 'poly': [], 'size': 0})
+    faces, items = task
+    signs = {f: set() for f in faces}
+    idx = 0
+    for name, poly, sz in items:
+        # ONE projection object serves all faces of the task, faces innermost (the same polygon on face after face): anything the object
+        # keeps between calls meets the next face straight away
+        for f in faces:
+            # every second polygon goes through one reused coordinate list; before two of every four polygons a request for a face that does
+            # not exist is made with the polygon's first vertex (a caller's slip that was caught and ignored)
+            s = check_poly(acc, proj, poly, f, name, sz, form=idx % 2, reject=(idx % 4) in (1, 2))
+            idx += 1
+            if s is not None:
+                signs[f].add(s)
+    for f in faces:
+        if len(signs[f]) > 1:
+            acc.violation(f'c14:f{f}:orientation', f'face {f}: some polygons keep their orientation and some are mirrored', {'face': f, 'poly': [], 'size': 0})
     return acc
 
 
@@ -258,15 +264,22 @@ def run(tier, t0):
     acc = common.Acc()
     cat = catalogue(tier) + anchored(tier)
     tasks = []
-    for f in range(12):
+    # four groups of three faces; one projection object per task serves its three faces
+    sh = common.seed() % 3
+    groups = [tuple((3 * g + j + sh) % 12 for j in range(3)) for g in range(4)]      # consecutive face numbers share a task (seed shifts the cut)
+    for g in groups:
         for ch in common.chunks(cat, 40):
-            tasks.append((f, ch))
+            tasks.append((g, ch))
+    # and every face with every other face at least once: the first 40 polygons of the catalogue on all twelve faces through one object
+    step = max(1, len(cat) // 40)
+    tasks.append((tuple(range(12)), cat[0::step]))                       # a 1-in-`step` cross-section of all placements and sizes
+    tasks.append((tuple(reversed(range(12))), cat[step // 2::step]))
     tasks = common.rotate(tasks, common.seed())
     common.pmap_merge(work, tasks, acc)
     acc.n['catalogue_polygons_per_face'] = len(cat)
     acc.sample({'face': 4, 'polygon': [list(p) for p in cat[len(cat) // 2][1]], 'name': cat[len(cat) // 2][0]})
     acc.sample({'constant': SCALE, 'meaning': '(4 pi / 12) / area of the face pentagon'})
-    rule = (f'12 faces x {len(cat)} polygons: triangles, quads and thin triangles at sizes 1e-4..0.5 face widths centred on the face centre, on each of the 10 seam rays at 3 radii, '
+    rule = (f'12 faces x {len(cat)} polygons (one projection object serves three faces at a time, faces innermost; two tasks take a 1-in-n cross-section of the catalogue over all twelve faces through one object): triangles, quads and thin triangles at sizes 1e-4..0.5 face widths centred on the face centre, on each of the 10 seam rays at 3 radii, '
             'straddling and beyond each of the 5 edges, and inside each vertex (only polygons wholly inside the pentagon or a mirror triangle); plus fan triangles with one vertex exactly on the face centre, an edge midpoint, a pentagon vertex or a seam ray; edges densified at K, 4K(, 16K) and Richardson-extrapolated; every second polygon is passed through one coordinate list updated in place, and before half of the polygons a request for a non-existent face is made and its exception ignored; '
             'non-trivial = polygons whose area ratio met 1e-6')
     return common.finish(PID, LEVEL, tier, acc, t0, rule, [
